@@ -1207,6 +1207,53 @@ def raise_internal(msg):
 
 # ----------------------------------------------------------------------------- search
 
+# ----------------------------------------------------------------------------- near-twin operands
+# The frozen classes compare (and hash) with a tolerance: two *different* rotations can be == . Anything
+# memoised on such a key hands one rotation's matrix to the other.  The dispatch law "x @ angle is x @
+# Matrix.from_angle(angle)" is checked for a pair of near twins used one after the other, on vectors large
+# enough that a borrowed matrix is visible, and (matrix/angle left operands) on the resulting entries.
+
+def _flat(sm, x):
+    if isinstance(x, (sm.Matrix, sm.FrozenMatrix)):
+        return tuple(mat_entries(x))
+    return tuple(float(c) for c in x)
+
+
+def prop_near_twin_case(ctx, im, case):
+    sm = im.sm
+    pyr, d, v = tuple(case['pyr']), tuple(case['d']), tuple(case['v'])
+    pyr2 = tuple(a + b for a, b in zip(pyr, d))
+    rcls = {'FrozenAngle': sm.FrozenAngle, 'Angle': sm.Angle}[case['r']]
+    lefts = {'Vec': lambda: sm.Vec(*v), 'FrozenVec': lambda: sm.FrozenVec(*v), 'tuple': lambda: tuple(v),
+             'Matrix': lambda: sm.Matrix.from_angle(*v), 'FrozenMatrix': lambda: sm.FrozenMatrix.from_angle(*v),
+             'Angle': lambda: sm.Angle(*v), 'FrozenAngle': lambda: sm.FrozenAngle(*v)}
+    mk = lefts[case['l']]
+    a1, a2 = rcls(*pyr), rcls(*pyr2)
+    try:
+        first = mk() @ a1                      # whatever is remembered about a1 is remembered now
+        got = _flat(sm, mk() @ a2)
+        want = _flat(sm, mk() @ sm.Matrix.from_angle(*pyr2))
+    except Exception as e:
+        ctx.witness('near-twin-raises', f'{case["l"]} @ {case["r"]}{pyr2}: {type(e).__name__}: {e}', dict(case, kind='near_twin'))
+        return
+    scale = max(1.0, max(abs(c) for c in want))
+    if any(abs(g - w) > 1e-12 * scale for g, w in zip(got, want)):
+        ctx.witness('near-twin-borrowed-rotation',
+                    f'after {case["l"]}{v} @ {case["r"]}{pyr}, the product {case["l"]}{v} @ {case["r"]}{pyr2} is {got} but '
+                    f'{case["l"]}{v} @ Matrix.from_angle{pyr2} is {want}: x @ angle must equal x @ Matrix.from_angle(angle) '
+                    f'whatever was rotated before (the two angles differ by {d}, within the tolerance of __eq__/__hash__)',
+                    dict(case, kind='near_twin'))
+
+
+def gen_near_twin_cases(ctx, rng):
+    for i in range(ctx.budget(300, 3000)):
+        l = ['Vec', 'FrozenVec', 'tuple', 'Matrix', 'FrozenMatrix', 'Angle', 'FrozenAngle'][i % 7]
+        big = l in ('Vec', 'FrozenVec', 'tuple')
+        v = [rng.choice([-1, 1]) * rng.uniform(2e5, 2e6) for _ in range(3)] if big else [rng.uniform(0, 360) for _ in range(3)]
+        yield {'l': l, 'r': ['FrozenAngle', 'Angle'][(i // 7) % 2], 'pyr': [round(rng.uniform(0, 359), rng.choice([0, 2, 6])) for _ in range(3)],
+               'd': [rng.choice([-1, 1]) * rng.choice([2e-7, 4e-7, 4.9e-7]) for _ in range(3)], 'v': v}
+
+
 def search(ctx):
     im = Impl()
     for case in gen_angle_cases(ctx, case_rng(ctx, 'angles')):
@@ -1218,6 +1265,9 @@ def search(ctx):
         ctx.count('search:composed:' + case[0])
     for case in gen_dispatch_cases(ctx, case_rng(ctx, 'dispatch')):
         prop_dispatch_case(ctx, im, case)
+    for case in gen_near_twin_cases(ctx, case_rng(ctx, 'near_twin')):
+        prop_near_twin_case(ctx, im, case)
+        ctx.count('search:near-twin:' + case['l'] + '@' + case['r'])
     n_shrunk = 0
     for hist in gen_histories(ctx, case_rng(ctx, 'history')):
         before = len(ctx.witnesses)
@@ -1281,6 +1331,8 @@ def _replay_input(ctx, im, inp):
         prop_inverse_case(ctx, im, tuple(inp['m']))
     elif k == 'composed':
         prop_composed_case(ctx, im, ('replay', [tuple(t) for t in inp['chain']], tuple(inp['v'])))
+    elif k == 'near_twin':
+        prop_near_twin_case(ctx, im, inp)
     elif k == 'history':
         prop_history(ctx, im, {'init': inp['init'], 'ops': inp['ops'], 'probes': inp.get('probes', True)}, shrink=False)
     else:
